@@ -55,6 +55,7 @@ type Cell struct {
 	Base  rune   // 0 = never written / erased (blank)
 	Comb  []rune // combining marks
 	Width uint8  // 1 or 2; 0 = right half of the wide glyph to the left
+	Cont  bool   // right half of the wide glyph in the cell to the left
 	Alt   bool   // Base is a byte shown through the alternate character set
 	Pen   Pen
 	Stamp int // block number of the last write (print) to this cell
@@ -119,6 +120,9 @@ type Term struct {
 	pend        []byte
 	rw          *runewidth.Condition
 	PayloadHook func(r rune, raw []byte)
+	// position of the glyph printed last, while nothing moved the cursor since
+	lastX, lastY int
+	lastValid    bool
 }
 
 const (
@@ -293,6 +297,9 @@ func (t *Term) ground(c byte) {
 		t.print(rune(c), true, []byte{c})
 		return
 	}
+	if c < 0x20 {
+		t.lastValid = false
+	}
 	switch {
 	case c == 0x1b:
 		t.st = stEsc
@@ -435,6 +442,12 @@ func (t *Term) scrollUp() {
 		c[i] = Cell{}
 	}
 	t.Scrolls++
+	if t.lastValid {
+		t.lastY--
+		if t.lastY < 0 {
+			t.lastValid = false
+		}
+	}
 }
 
 func (t *Term) blankCell(x, y int) {
@@ -446,14 +459,14 @@ func (t *Term) breakWide(x, y int) {
 	c := t.At(x, y)
 	if c.Width == 2 && x+1 < t.W {
 		n := t.At(x+1, y)
-		if n.Width == 0 && n.Base == 0 {
-			*n = Cell{Width: 1, Stamp: n.Stamp}
+		if n.Cont {
+			*n = Cell{Stamp: n.Stamp}
 		}
 	}
-	if c.Width == 0 && c.Base == 0 && x > 0 {
+	if c.Cont && x > 0 {
 		p := t.At(x-1, y)
 		if p.Width == 2 {
-			*p = Cell{Width: 1, Stamp: p.Stamp}
+			*p = Cell{Stamp: p.Stamp}
 		}
 	}
 }
@@ -470,19 +483,12 @@ func (t *Term) print(r rune, alt bool, raw []byte) {
 		w = t.rw.RuneWidth(r)
 	}
 	if w == 0 {
-		// combining / zero-width: attaches to the previously printed glyph
-		x := t.X
-		if !t.WrapPending {
-			x--
-		}
-		if x < 0 {
-			t.errf("zero-width character U+%04X with no glyph to attach to", r)
+		// combining / zero-width: attaches to the glyph printed just before
+		if !t.lastValid || t.lastX >= t.W || t.lastY >= t.H {
+			t.errf("zero-width character U+%04X with no preceding glyph to attach to", r)
 			return
 		}
-		c := t.At(x, t.Y)
-		if c.Width == 0 && x > 0 {
-			c = t.At(x-1, t.Y)
-		}
+		c := t.At(t.lastX, t.lastY)
 		c.Comb = append(c.Comb, r)
 		c.Stamp = t.Block
 		t.Printed++
@@ -499,10 +505,11 @@ func (t *Term) print(r rune, alt bool, raw []byte) {
 	t.breakWide(t.X, t.Y)
 	c := t.At(t.X, t.Y)
 	*c = Cell{Base: r, Width: uint8(w), Alt: alt, Pen: t.Pen, Stamp: t.Block}
+	t.lastX, t.lastY, t.lastValid = t.X, t.Y, true
 	t.Printed++
 	if w == 2 {
 		t.breakWide(t.X+1, t.Y)
-		*t.At(t.X+1, t.Y) = Cell{Width: 0, Pen: t.Pen, Stamp: t.Block}
+		*t.At(t.X+1, t.Y) = Cell{Cont: true, Pen: t.Pen, Stamp: t.Block}
 	}
 	t.X += w
 	if t.X >= t.W {
@@ -930,4 +937,44 @@ var DecSpecial = map[byte]rune{
 	'j': '┘', 'k': '┐', 'l': '┌', 'm': '└', 'n': '┼', 'o': '⎺', 'p': '⎻', 'q': '─', 'r': '⎼', 's': '⎽',
 	't': '├', 'u': '┤', 'v': '┴', 'w': '┬', 'x': '│', 'y': '≤', 'z': '≥', '{': 'π', '|': '≠', '}': '£', '~': '·',
 	'_': ' ',
+}
+
+// Scramble overwrites the grid, the cursor position and the pen with
+// deterministic garbage derived from seed ("arbitrary previous contents").
+// Modes, charset designations and the cursor visibility are left alone.
+func (t *Term) Scramble(seed int, withLink bool) {
+	x := uint32(seed)*2654435761 + 12345
+	next := func() uint32 {
+		x ^= x << 13
+		x ^= x >> 17
+		x ^= x << 5
+		return x
+	}
+	randPen := func() Pen {
+		v := next()
+		return Pen{Fg: Color{ColPalette, int32(v % 8)}, Bg: Color{ColPalette, int32((v >> 3) % 8)}, Bold: v&64 != 0, Reverse: v&128 != 0, Ul: uint8((v >> 8) % 3), Italic: v&2048 != 0}
+	}
+	c := t.cells()
+	for i := range c {
+		switch next() % 4 {
+		case 0:
+			c[i] = Cell{}
+		default:
+			c[i] = Cell{Base: rune('!' + next()%90), Width: 1, Pen: randPen(), Stamp: -1}
+		}
+	}
+	if t.W > 0 && t.H > 0 {
+		t.X, t.Y = int(next())%t.W, int(next())%t.H
+		if t.X < 0 {
+			t.X = -t.X
+		}
+		if t.Y < 0 {
+			t.Y = -t.Y
+		}
+	}
+	t.WrapPending = false
+	t.Pen = randPen()
+	if withLink {
+		t.Pen.Link = "http://stale.example/"
+	}
 }
